@@ -653,7 +653,7 @@ def run_console_variant_case(files, variant, label, cur=None, prev=None):
                     if why:
                         fails.append({"input": dict(inp0, fmt=fmt, repo=repo, full=full), "observed": o, "raw": raw[-1500:], "required": why,
                                       "what": "findings on %s: %s" % (label, why)})
-        if cur is not None:
+        if cur is not None and int(variant.get("width") or 0) >= 200:      # narrower consoles wrap cells (width ladder judges those with fits_wrapped)
             _i, _rq, _o, f = run_overview_case(cur, prev, probes=False)
             n += 2
             for x in f:
